@@ -14,6 +14,9 @@ let run (kind : string) (args : Sexp.t list) : Sexp.t =
   | "shiftlines", [A k; L (A "lines" :: ls)] ->
     let lines = List.map (function A l -> z_of_string l | _ -> failwith "line") ls in
     L (A "lines" :: List.map (fun z -> A (string_of_z z)) (shift_lines (C03.nat_of_int (int_of_string k)) lines))
+  | "addlines", [A size; L (A "offs" :: os)] ->
+    let offs = List.map (function A o -> z_of_string o | _ -> failwith "off") os in
+    L (A "lines" :: List.map (fun z -> A (string_of_z z)) (add_lines (z_of_string size) offs))
   | "fileof", [L (A "files" :: fs); A p] ->
     let files = List.map (function L [A b; A s] -> (z_of_string b, z_of_string s) | _ -> failwith "file") fs in
     (match file_of files (z_of_string p) with
